@@ -330,6 +330,10 @@ var sendCheck = &core.Check{Name: "c15/send", Quick: 2500, Thorough: 150000, Fn:
 	if acc == accActive {
 		usage = drawUsage(c, vp.Ref)
 	}
+	// up to 4 transfers: the limit of v3/v4; with the initial state attached every reference of the external
+	// message is then in use (drawn last for the same reason)
+	nmsgs += c.Range("more messages", 0, 2)
+	c.Note("messages", nmsgs)
 	c.Note("version", vp.Ref.String())
 	c.Note("options", o.String())
 	c.Note("account", accNames[acc])
@@ -476,6 +480,9 @@ var sendCheck = &core.Check{Name: "c15/send", Quick: 2500, Thorough: 150000, Fn:
 		}
 		if hasSeqno && f.seqno != 0 {
 			return fmt.Errorf("seqno %d for an account that is %s", f.seqno, accNames[acc])
+		}
+		if nmsgs == 4 {
+			c.Class("initial state attached and 4 transfers")
 		}
 	}
 	if o.NonDefault() || (acc == accActive && (stored > 0 || !usage.Empty())) {
@@ -904,5 +911,5 @@ func TestEnum(t *testing.T) {
 }
 
 func TestReplay(t *testing.T) {
-	core.Replay(t, addressCheck, gridCheck, sendCheck, confirmCheck, highloadConfirmCheck, seedCheck, lateConfirmCheck)
+	core.Replay(t, addressCheck, gridCheck, sendCheck, confirmCheck, highloadConfirmCheck, seedCheck, lateConfirmCheck, resendCheck)
 }
